@@ -280,6 +280,13 @@ func (vc *VC) makeIface(x Term, t types.Type) Term {
 	}
 	key := sanitize(vc.structKey(t))
 	s := vc.sortOf(t)
+	vc.declareBox(key, s)
+	b := App(SPtr, "box$"+key, x)
+	return MkIface(id, b)
+}
+
+// declareBox declares the boxing functions of a non-pointer type together with their axiom, once.
+func (vc *VC) declareBox(key string, s Sort) {
 	box, unbox := "box$"+key, "unbox$"+key
 	first := !vc.q.IsDeclared(box)
 	vc.q.DeclareFun(box, []Sort{s}, SPtr)
@@ -287,9 +294,10 @@ func (vc *VC) makeIface(x Term, t types.Type) Term {
 	if first {
 		// boxing is injective (stated once per boxed type, so that boxed terms may contain bound variables)
 		vc.q.Raw(fmt.Sprintf("(assert (forall ((v!bx %s)) (! (= (%s (%s v!bx)) v!bx) :pattern ((%s v!bx)))))", s, unbox, box, box))
+		// a boxed non-pointer value is no object of the heap model: its data pointer lies in root 0 (where no real
+		// object lives: every non-nil pointer, slice and map has a positive root), told apart by its path
+		vc.q.Raw(fmt.Sprintf("(assert (forall ((v!bx %s)) (! (= (root (%s v!bx)) 0) :pattern ((%s v!bx)))))", s, box, box))
 	}
-	b := App(SPtr, box, x)
-	return MkIface(id, b)
 }
 
 func (vc *VC) typeAssert(fr *Frame, st *State, t *ssa.TypeAssert) {
@@ -316,9 +324,11 @@ func (vc *VC) typeAssert(fr *Frame, st *State, t *ssa.TypeAssert) {
 		} else {
 			key := sanitize(vc.structKey(t.AssertedType))
 			s := vc.sortOf(t.AssertedType)
-			vc.q.DeclareFun("box$"+key, []Sort{s}, SPtr)
-			vc.q.DeclareFun("unbox$"+key, []Sort{SPtr}, s)
+			vc.declareBox(key, s)
 			v = App(s, "unbox$"+key, IVal(x))
+			// a boxed value is a well-formed value of its type (what Go's type system guarantees of the
+			// contents of an interface whose dynamic type is the asserted one)
+			vc.q.Assert(Implies(And(st.reach, ok), vc.wfAssume(st, v, t.AssertedType, 0)))
 		}
 	}
 	if t.CommaOk {
